@@ -10,6 +10,8 @@ C07 -- copy-number signal is depth-normalised: a two-copy reference reads as 2.0
   float    the same real statements executed on IEEE-754 double proxies (z3 FloatingPoint,
            round-nearest-even): sample == profile sample => exactly 2.0 for all positive
            finite doubles -- a statement about the float code, not its real shadow
+  walkers  profile generation, the sample's neutral-region walker and the pileup give the
+           same per-position depth for the same read (symbolic CIGAR shapes, exploration)
   depth    Coverage.total excludes insertions; average_coverage / diploid_avg_coverage
            are the documented averages (symbolic depths)
 """
@@ -29,13 +31,14 @@ from aldy.gene import Mutation
 
 PROPERTY = "C07"
 LEVEL = "model_checking"
-FUNCTIONS = ["aldy.coverage.Coverage.{_normalize_coverage,region_coverage,"
+FUNCTIONS = ["aldy.profile.Profile.get_sam_profile_data", "aldy.sam.Sample._load_cn_region",
+             "aldy.coverage.Coverage.{_normalize_coverage,region_coverage,"
              "diploid_avg_coverage,average_coverage,total}", "aldy.cn.estimate_cn "
              "(region_cov assembly, via C03 wrapper)"]
 STUBS = ["Coverage.total -> symbolic per-position depth (scale part); float(): "
          "aldy.coverage.float shadowed; float part: numbers are z3 Float64 proxies and "
          "the gene is a stub with single-position regions (so that sum() is exact)"]
-OUTSIDE = ["the three CIGAR depth walkers and profile generation (decided in C06 'walkers')",
+OUTSIDE = [
            "BAM fetch windows / htslib; the approximate NA10860 claim",
            "custom neutral region parsing (regex on text)"]
 ASSUMPTIONS = ["scale part: exact real arithmetic (floats as reals); float part: IEEE-754 "
@@ -60,10 +63,18 @@ def configs(tier):
     if tier == "thorough":
         c.append({"kind": "float", "solver": "cvc5"})
     c.append({"kind": "depth"})
+    # the three CIGAR depth walkers must agree (shared harness with C06)
+    for b in ("hg19", "hg38"):
+        c.append({"kind": "walkers", "genome": b, "nops": 2,
+                  **({"maxsz": 3, "starts": 5} if tier == "thorough" else
+                     {"maxsz": 2, "starts": 4})})
     return c
 
 
 def run_config(cfg):
+    if cfg["kind"] == "walkers":
+        import c06
+        return c06.run_walkers(cfg)
     return globals()["run_" + cfg["kind"]](cfg)
 
 
